@@ -297,6 +297,73 @@ def rms_rules(run, db):
     run.check(getattr(r, 'qual', None) == 'prysm.util.rms', 'C13.rms', f.qual, 'rms binding', "globals()['rms'] is prysm.util.rms", 'module-level rms resolves to %r' % (r,), f.loc())
 
 
+def edge_rules(run, db):
+    """Band edges: periods and frequencies resolve to [flow, fhigh] = [1/longest period or flow or 0, 1/shortest period or fhigh or max(r)]."""
+    from .common import block_as_function, norm_interp
+    from ..core.norm import Rat
+    f = db.func(M + 'bandlimited_rms')
+    cut = next((i for i, st in enumerate(f.node.body) if isinstance(st, ast.Assign) and ast.unparse(st.targets[0]) == 'work'), None)
+    if cut is None:
+        raise AnalysisError('bandlimited_rms: `work = psd.copy()` not found')
+    start = 1 if isinstance(f.node.body[0], ast.Expr) and isinstance(getattr(f.node.body[0], 'value', None), ast.Constant) else 0
+    fn, params = block_as_function(f, f.node.body[start:cut], ['flow', 'fhigh'], 'edges')
+    it, dom = norm_interp(db)
+    R = dom.R
+    orig_m = dom.method
+
+    def method(v, name, args, kwargs, node):
+        if name == 'max' and not args and not kwargs and dom.rat(v) is not None and dom.rat(v) == Rat(R.atom('r')):
+            return dom.sym('rmax')
+        return orig_m(v, name, args, kwargs, node)
+    dom.method = method
+    orig_e = dom.call_ext
+
+    def call_ext(dotted, args, kwargs, node):
+        if dotted in ('numpy.max', 'numpy.amax', 'numpy.nanmax') and len(args) == 1 and not kwargs and dom.rat(args[0]) is not None and dom.rat(args[0]) == Rat(R.atom('r')):
+            return dom.sym('rmax')
+        if dotted == 'warnings.warn':
+            return Const(None)
+        return orig_e(dotted, args, kwargs, node)
+    dom.call_ext = call_ext
+    A = lambda nme: Rat(R.atom(nme))
+    zero, rmax = Rat(R.const(0)), A('rmax')
+    N = Const(None)
+    cases = [
+        ('shortest period only', {'wllow': 'a'}, (zero, 1 / A('a'))),
+        ('longest period only', {'wlhigh': 'b'}, (1 / A('b'), rmax)),
+        ('both periods', {'wllow': 'a', 'wlhigh': 'b'}, (1 / A('b'), 1 / A('a'))),
+        ('lower frequency only', {'flow': 'p'}, (A('p'), rmax)),
+        ('upper frequency only', {'fhigh': 'q'}, (zero, A('q'))),
+        ('both frequencies', {'flow': 'p', 'fhigh': 'q'}, (A('p'), A('q'))),
+    ]
+    for label, given, (wlo, whi) in cases:
+        kw = {p_: dom.sym(p_) for p_ in params}
+        for nm in ('wllow', 'wlhigh', 'flow', 'fhigh'):
+            kw[nm] = dom.sym(given[nm]) if nm in given else N
+        res = [p for p in it.run(fn, kwargs=lambda: dict(kw)) if p.outcome == 'return']
+        if not res:
+            raise AnalysisError('bandlimited_rms edges (%s): no returning path' % label)
+        for p in res:
+            lo, hi = [dom.rat(v) for v in p.value.items]
+            ok = lo is not None and hi is not None and lo == wlo and hi == whi
+            run.check(ok, 'C13.band', f.qual, 'edges: ' + label, 'band given by %s resolves to [%s, %s]' % (label, wlo.key(), whi.key()),
+                      'with %s the band becomes [%s, %s], expected [%s, %s] (max(r) is the largest radial frequency of the grid, 0 the smallest): bands specified this way are not the bands asked for, '
+                      'so widening a band can lower the RMS and adjacent bands do not add in quadrature' % (label, lo.key() if lo is not None else '?', hi.key() if hi is not None else '?', wlo.key(), whi.key()), f.loc())
+    kw = {p_: dom.sym(p_) for p_ in params}
+    kw.update({nm: N for nm in ('wllow', 'wlhigh', 'flow', 'fhigh')})
+    res = it.run(fn, kwargs=lambda: dict(kw))
+    run.check(bool(res) and all(p.outcome == 'raise' for p in res), 'C13.band', f.qual, 'edges: none given', 'no band specification raises', 'bandlimited_rms without any band edge does not raise', f.loc())
+    # the object method passes the four edges through by name; TIS asks for the band up to 1/wavelength as a FREQUENCY
+    fm = db.func(M + 'Interferogram.bandlimited_rms')
+    calls = [n for n in walk_no_nested(fm.node) if isinstance(n, ast.Call) and ast.unparse(n.func) == 'bandlimited_rms']
+    okm = len(calls) == 1 and {k.arg: ast.unparse(k.value) for k in calls[0].keywords if k.arg in ('wllow', 'wlhigh', 'flow', 'fhigh')} == {'wllow': 'wllow', 'wlhigh': 'wlhigh', 'flow': 'flow', 'fhigh': 'fhigh'}
+    run.check(okm, 'C13.band', fm.qual, 'pass-through', 'the method hands each band edge to the parameter of the same name', 'Interferogram.bandlimited_rms does not pass the band edges through by name', fm.loc())
+    ft = db.func(M + 'Interferogram.total_integrated_scatter')
+    calls = [n for n in walk_no_nested(ft.node) if isinstance(n, ast.Call) and ast.unparse(n.func) == 'self.bandlimited_rms']
+    okt = len(calls) == 1 and not calls[0].args and {k.arg for k in calls[0].keywords} == {'fhigh'}
+    run.check(okt, 'C13.band', ft.qual, 'TIS band', 'the scatter band [0, 1000/wavelength] is passed as an upper FREQUENCY', 'total_integrated_scatter passes its frequency limit positionally (as a period) to bandlimited_rms', ft.loc())
+
+
 def pure_rules(run, db):
     """The PSD chain reads its inputs: no in-place write through an argument (the caller's height map / PSD survive the call)."""
     from .purity import input_mutations
@@ -310,6 +377,12 @@ def pure_rules(run, db):
                         'sees the windowed / scaled data)' % name, fi.loc(st))
         if not muts:
             run.ok('C13.pure', fi.qual, 'arguments are not written through')
+    # frequency axes / grids handed out by a memo must not be edited in place by the PSD chain (history independence)
+    from .purity import memo_inplace
+    for fi, st, callee in memo_inplace(db, ['prysm.interferogram', 'prysm.fttools', 'prysm.util', 'prysm.coordinates']):
+        run.finding('C13.pure', fi.qual, norm_stmt(st), 'in-place write into the result of the memoising function %s: every later caller that receives the same stored array (e.g. the frequency axis of the next psd '
+                    'with the same dx and sample count) sees the edit -- the PSD then depends on call history' % callee.qual, fi.loc(st))
+    run.ok('C13.pure', 'prysm.interferogram', 'no memoised array is edited in place (or none is memoised)')
 
 
 def check(run, db, tier):
@@ -323,7 +396,7 @@ def check(run, db, tier):
     run.rule('C13.band', 'band mask keeps [flow, fhigh]; each axis is integrated with its own frequency step; result is the square root')
     run.rule('C13.rms', 'synthetic surface: mask, then NaN-aware RMS, scale = requested/measured, applied to the surface')
     run.rule('C13.pure', 'no function of the PSD chain writes in place through one of its arguments (may-alias over views, joined over branches)')
-    for fn in (api_rules, origin_rules, norm_rules, band_rules, rms_rules, pure_rules):
+    for fn in (api_rules, origin_rules, norm_rules, band_rules, edge_rules, rms_rules, pure_rules):
         run.group(fn, run, db)
     run.require_instances('C13.origin', 4)
     run.require_instances('C13.pure', 10)
